@@ -27,6 +27,7 @@ class Analysis:
     def __init__(self, recipe):
         self.r = recipe
         self.flagged = []  # (routine, vid)
+        self.called = set()
         self.exempt = set()
         self._collect_exempt()
 
@@ -101,6 +102,7 @@ class Analysis:
             st = self.ex(e[1], st, ctx)
             return _meet(st, self.ex(e[2], st, ctx))
         if k == "call":
+            self.called.add(e[1])  # reached only in live code: ex() returns early when st is None
             for a in e[2]:
                 if isinstance(a, list) and a and a[0] in ("ref", "refparam", "abi"):
                     if a[0] == "abi":
@@ -255,11 +257,18 @@ class Analysis:
         r = self.r
         tracked = {d["id"] for d in r.get("vars", []) if d.get("kind", "sv") in track_kinds or (track_abi_main and d.get("kind") == "abi")}
         ctx = {"routine": "main", "tracked": tracked, "loop": None}
+        self.called = set()
         st = self.seq(r["main"], frozenset(), ctx)
         self.ex(r["final"], st, ctx)
-        for k, s in enumerate(r.get("subs", [])):
-            if k not in self.reachable():
-                continue  # a routine nobody calls is never compiled
+        # only routines called from *live* code are compiled (a call in dead code after Return/Break/Continue emits nothing):
+        # follow the calls the analysis itself reached, transitively
+        done = set()
+        while self.called - done:
+            k = min(self.called - done)
+            done.add(k)
+            if k >= len(r.get("subs", [])):
+                continue
+            s = r["subs"][k]
             tracked = {d["id"] for d in s.get("locals", []) if d.get("kind", "sv") in track_kinds}
             ctx = {"routine": "s%d" % k, "tracked": tracked, "loop": None}
             st = self.seq(s["body"], frozenset(), ctx)
